@@ -87,6 +87,8 @@ where
         let mutex = self.inner.load_read_list()?;
         let mut list = mutex.lock().assume("poisoned")?;
 
+        #[cfg(aranya_core_verif)]
+        crate::verif::yield_point("gen.load");
         let generation = list.generation.load(Ordering::Relaxed);
 
         let (chan, idx) = match list.find_mut(id, None, Op::Seal)? {
@@ -110,6 +112,8 @@ where
         let mutex = self.inner.load_read_list()?;
         let mut list = mutex.lock().assume("poisoned")?;
 
+        #[cfg(aranya_core_verif)]
+        crate::verif::yield_point("gen.load");
         let generation = list.generation.load(Ordering::Relaxed);
 
         let (chan, idx) = match list.find_mut(id, None, Op::Open)? {
@@ -145,6 +149,8 @@ where
 
         let hint = {
             // SAFETY: we only access an atomic field.
+            #[cfg(aranya_core_verif)]
+            crate::verif::yield_point("gen.peek");
             let generation = unsafe {
                 mutex
                     .inner_unsynchronized()
@@ -176,6 +182,8 @@ where
         //
         // NB: we load the generation before traversing the list
         // to avoid ownership conflicts with `chan`.
+        #[cfg(aranya_core_verif)]
+        crate::verif::yield_point("gen.load");
         let generation = list.generation.load(Ordering::Relaxed);
 
         let (chan, idx) = match list.find_mut(id, hint, Op::Seal)? {
@@ -219,6 +227,8 @@ where
 
         let hint = {
             // SAFETY: we only access an atomic field.
+            #[cfg(aranya_core_verif)]
+            crate::verif::yield_point("gen.peek");
             let generation = unsafe {
                 mutex
                     .inner_unsynchronized()
@@ -253,6 +263,8 @@ where
         if result.is_ok() {
             // Decryption was successful, so update the cache.
             cache.idx = idx;
+            #[cfg(aranya_core_verif)]
+            crate::verif::yield_point("gen.load");
             cache.generation = list.generation.load(Ordering::Relaxed);
             cache.key = key;
         }
@@ -263,5 +275,16 @@ where
         let mutex = self.inner.load_read_list()?;
         let list = mutex.lock().assume("poisoned")?;
         Ok(list.exists(id, None, Op::Any)?)
+    }
+}
+
+#[cfg(aranya_core_verif)]
+impl<CS> ReadState<CS>
+where
+    CS: CipherSuite,
+{
+    /// Verification only: raw view of the shared memory (see `VerifSnapshot`).
+    pub fn verif_snapshot(&self) -> super::shared::VerifSnapshot {
+        self.inner.verif_snapshot()
     }
 }
